@@ -121,6 +121,17 @@ def snapshot(obj, depth=6, _seen=None):
     if isinstance(obj, (set, frozenset)):
         return ("set", sorted(repr(x) for x in obj))
     if isinstance(obj, dict):
+        import collections
+
+        if isinstance(obj, collections.defaultdict) and obj.default_factory is not None:
+            # reading a missing key materialises a default entry: not an observable change
+            dflt = repr(snapshot(obj.default_factory(), depth - 1, {}))
+            out = {}
+            for k, v in obj.items():
+                sv = snapshot(v, depth - 1, {})
+                if repr(sv) != dflt or any(isinstance(x, SymBase) for x in vars(v).values()):
+                    out[repr(k)] = sv
+            return out
         return {repr(k): snapshot(v, depth - 1, _seen) for k, v in obj.items()}
     d = getattr(obj, "__dict__", None)
     out = {"__type__": type(obj).__name__}
